@@ -545,6 +545,6 @@ SUBCHECKS = [
     Sub('hocur', hocur_case(), body_hocur, nt, quick=300, thorough=3000, shards_quick=4,
         classes=['m1', 'single_function_mode', 'mixed_families', 'duplicated_snapshot', 'repeats1', 'repeats3', 'ranks_list_reused',
                  'user_defined_function']),
-    Sub('hocur_many_modes', hocur_many_case(), body_hocur_many, lambda l: bool({'modes_13plus', 'modes_40plus'} & set(l)), quick=60, thorough=1000,
+    Sub('hocur_many_modes', hocur_many_case(), body_hocur_many, lambda l: bool({'modes_13plus', 'modes_40plus'} & set(l)), quick=60, thorough=500,
         shards_quick=4, classes=['modes_5plus', 'modes_13plus', 'modes_40plus', 'entries_beyond_int64', 'm1', 'duplicated_snapshot', 'single_function_mode']),
 ]
